@@ -43,20 +43,24 @@ def run_tempo(system, oper, corr, rho0, start, dt, nsteps, params, unique,
 
 
 def run_pt(system, oper, corr, rho0, start, dt, nsteps, params, unique,
-           subdiv_limit=256, file_backed=False, reimport=None, on_grid=False):
+           subdiv_limit=256, file_backed=False, reimport=None, on_grid=False,
+           used_before=False):
     """PT-TEMPO + compute_dynamics; with file_backed the process tensor is
     computed straight into an HDF5 file (removed afterwards)."""
     import oqupy
     return run_pt_bath(system, oqupy.Bath(oper, corr), rho0, start, dt,
                        nsteps, params, unique, subdiv_limit, file_backed,
-                       reimport, on_grid)
+                       reimport, on_grid, used_before=used_before)
 
 
 def run_pt_bath(system, bath, rho0, start, dt, nsteps, params, unique,
                 subdiv_limit=256, file_backed=False, reimport=None,
-                on_grid=False, num_steps=None, end=None, reopen=None):
+                on_grid=False, num_steps=None, end=None, reopen=None,
+                used_before=False):
     """run_pt for a ready-made Bath. file_backed: True (own temporary file
-    name) or "auto" (process_tensor_file=True: the library picks the file)."""
+    name) or "auto" (process_tensor_file=True: the library picks the file).
+    used_before: the process tensor object has served another propagation
+    (other initial state) before the one that is returned."""
     import os
     import tempfile
     import oqupy
@@ -88,6 +92,12 @@ def run_pt_bath(system, bath, rho0, start, dt, nsteps, params, unique,
             pt.export(fn2)
             pt = oqupy.import_process_tensor(fn2, reimport)
         try:
+            if used_before:
+                dd_ = np.asarray(rho0).shape[0]
+                oqupy.compute_dynamics(
+                    system, np.identity(dd_, dtype=complex) / dd_,
+                    start_time=start, process_tensor=pt,
+                    subdiv_limit=subdiv_limit, progress_type="silent")
             dyn = oqupy.compute_dynamics(system, rho0, start_time=start,
                                          process_tensor=pt,
                                          num_steps=num_steps,
